@@ -450,8 +450,14 @@ def line_bounded_check(prog, R, rule):
             R.ob("ANCHOR", fn, False)
             continue
         bad = []
+        # eat_while calls of the scanner itself and of the lexer helpers it calls directly (`eat_until_newline`)
+        sites = [(b, bi, t) for bi, t in b.calls()]
         for bi, t in b.calls():
-            if not (b.callee_of(t) or "").endswith("Cursor::eat_while"):
+            hc = b.callee_of(t) or ""
+            if _lexer_helpers(hc) and prog.body(hc) is not None and hc != fn:
+                sites += [(prog.body(hc), bi2, t2) for bi2, t2 in prog.body(hc).calls()]
+        for hb, bi, t in sites:
+            if not (hb.callee_of(t) or "").endswith("Cursor::eat_while"):
                 continue
             n += 1
             ty = (t.get("argtys") or [None, None])[1]
@@ -469,7 +475,7 @@ def line_bounded_check(prog, R, rule):
                 bad.append(f"{who} at {t['at']} {'accepts' if v is True else 'could not be evaluated on'} a line feed")
         R.ob(rule, fn.split("::")[-1], not bad, b.at, "every eat_while predicate stops at '\\n'" if not bad else
              f"{bad[0]}: the token runs on into the next line (`pragma\\nqubit q;` becomes one PRAGMA token)")
-    R.floor("eat_while calls in line-oriented scanners", n, 2)
+    R.floor("eat_while calls in line-oriented scanners", n, 1)
 
 
 def unit_suffix_table(prog, R, rule, units):
